@@ -1,7 +1,9 @@
 package main
 
 import (
+	"context"
 	"fmt"
+	"github.com/hslam/rpc"
 
 	vs "verif/shim/vsync"
 )
@@ -142,4 +144,203 @@ func c01Boundary(modes []modeT) func(x *X) {
 
 func init() {
 	register(&Scenario{Prop: "C01", Name: "c01/frame-boundary", Quick: []Bound{{0, 0}, {1, 0}}, Thorough: []Bound{{2, 0}}, Body: c01Boundary(basicModes), BudgetQ: 20})
+}
+
+// many calls outstanding at once on one connection (asynchronous calls need no threads of their
+// own), answered in a chosen order; among them a method name as long as a buffer, two payloads of
+// equal length and equal content apart from the tag, and replies longer than their requests.
+func c01Many(modes []modeT) func(x *X) {
+	return func(x *X) {
+		m := modes[x.Choose(len(modes))]
+		n := []int{9, 17, 33}[x.Choose(3)]
+		order := x.Choose(4) // release order: forward, reverse, odd-then-even, outside-in
+		f := newFixture(m.so, m.co)
+		var calls []*ucall
+		for i := 0; i < n; i++ {
+			flags := byte(fGate)
+			if i%5 == 4 {
+				flags |= fDouble
+			}
+			size := 8 + (i*11)%90
+			if i%4 == 3 {
+				size = 40 // equal lengths
+			}
+			c := newUcall(byte(i+1), flags, size, formGo)
+			if i%7 == 2 {
+				c.method = longMethod
+			}
+			c.done = make(chan *rpc.Call, 1)
+			c.call = f.conn.Go(c.method, &c.args, &c.reply, c.done)
+			calls = append(calls, c)
+		}
+		vs.Quiesce()
+		if k := int(f.conn.NumCalls()); k != n {
+			x.Fail("C01/outstanding-count", "%d calls are outstanding, NumCalls reports %d", n, k)
+		}
+		var seq []int
+		switch order {
+		case 0:
+			for i := 0; i < n; i++ {
+				seq = append(seq, i)
+			}
+		case 1:
+			for i := n - 1; i >= 0; i-- {
+				seq = append(seq, i)
+			}
+		case 2:
+			for i := 1; i < n; i += 2 {
+				seq = append(seq, i)
+			}
+			for i := 0; i < n; i += 2 {
+				seq = append(seq, i)
+			}
+		case 3:
+			for i, j := 0, n-1; i <= j; i, j = i+1, j-1 {
+				seq = append(seq, i)
+				if i != j {
+					seq = append(seq, j)
+				}
+			}
+		}
+		for k, i := range seq {
+			f.w.open(byte(i + 1))
+			if k%3 == 0 {
+				vs.Quiesce()
+			}
+		}
+		vs.Quiesce()
+		for _, c := range calls {
+			select {
+			case <-c.done:
+				c.ret = true
+				c.err = c.call.Error
+			default:
+			}
+			if !c.ret || c.err != nil {
+				x.Fail("C01/call-failed/many-outstanding", "call %d of %d outstanding calls (mode %s): completed=%v err=%v", c.tag, n, m.name, c.ret, c.err)
+			}
+		}
+		out := c01Check(x, calls, "many-outstanding")
+		_ = out
+		x.Outcome("%s n=%d order=%d", m.name, n, order)
+		f.conn.Close()
+		vs.Quiesce()
+	}
+}
+
+func init() {
+	register(&Scenario{Prop: "C01", Name: "c01/many-outstanding", Quick: []Bound{{0, 0}}, Thorough: []Bound{{1, 0}}, Body: c01Many(basicModes), MaxSteps: 200000, BudgetQ: 15, BudgetT: 200})
+}
+
+// a long-lived connection: one call stays outstanding (and one CallWithContext is abandoned and
+// not answered until the end) while n further calls are made one after the other on the same
+// connection; sequence numbers pass 128 and 16384 (the lengths of their varint encodings grow),
+// every per-connection counter passes the same thresholds, pooled objects are recycled thousands
+// of times.  n is 16382, 16383 or 16400 (66000 in the thorough tier), so that a counter with a
+// period of 2^14 comes back exactly to the numbers of the outstanding and of the abandoned call.
+// Default schedule only (one execution is about 150 000 steps).  The same body is registered
+// under C01, C02, C19 (keys of those properties) and, ending with Conn.Close instead of the
+// release of the handlers, under C03.
+func longConn(prop string, ns []int, closeAtEnd bool) func(x *X) {
+	return func(x *X) {
+		mode := x.Choose(3)
+		n := ns[x.Choose(len(ns))]
+		so, co := srvOpts{bufSize: 64}, cliOpts{bufSize: 64}
+		switch mode {
+		case 1:
+			co.pipelining = true // (a pipelining server would execute nothing behind the held handler)
+		case 2:
+			so.enc = "code"
+		}
+		f := newFixture(so, co)
+		a := newUcall(0xA1, fGate, 33, formGo)
+		a.done = make(chan *rpc.Call, 1)
+		a.call = f.conn.Go(a.method, &a.args, &a.reply, a.done)
+		ab := newUcall(0xA2, fGate, 21, formCallCtx)
+		ab.hctx = newCtx(nil)
+		ab.spawn(f.conn)
+		vs.Quiesce()
+		ab.hctx.cancel(context.Canceled)
+		vs.Quiesce()
+		if !ab.ret || ab.err != context.Canceled {
+			x.Fail(prop+"/abandon-failed/long-connection", "CallWithContext: returned=%v err=%v", ab.ret, ab.err)
+		}
+		bad := 0
+		for i := 0; i < n && bad < 3; i++ {
+			c := newUcall(byte(1+i%150), 0, 2+(i*7)%40, formCall)
+			c.args[1] = byte(i>>8) &^ (fGate | fErr | fDouble | fYield)
+			c.issue(f.conn)
+			if c.err != nil || !eqBytes(c.reply, c.want()) {
+				bad++
+				x.Fail(prop+"/wrong-reply/long-connection", "call number %d on a connection with one outstanding and one abandoned call: err=%v reply %x, want %x", i+1, c.err, c.reply, c.want())
+			}
+		}
+		b := newUcall(0xA3, fGate, 33, formGo)
+		b.done = make(chan *rpc.Call, 1)
+		b.call = f.conn.Go(b.method, &b.args, &b.reply, b.done)
+		vs.Quiesce()
+		if closeAtEnd {
+			f.conn.Close()
+			vs.Quiesce()
+			for _, c := range []*ucall{a, b} {
+				select {
+				case <-c.done:
+					c.ret, c.err = true, c.call.Error
+				default:
+				}
+				if !c.ret {
+					x.Fail(prop+"/caller-hangs/long-connection", "call %#x, outstanding when the connection was closed after %d other calls, was never completed", c.tag, n)
+				} else if c.err != rpc.ErrShutdown {
+					x.Fail(prop+"/unexpected-error/long-connection", "call %#x completed with %v after Close, want ErrShutdown", c.tag, c.err)
+				}
+			}
+			x.Outcome("mode=%d n=%d close", mode, n)
+			f.w.open(0xA1)
+			f.w.open(0xA2)
+			f.w.open(0xA3)
+			vs.Quiesce()
+			return
+		}
+		f.w.open(0xA2) // the abandoned call is answered late
+		vs.Quiesce()
+		if len(a.done) > 0 || len(b.done) > 0 {
+			x.Fail(prop+"/completed-early/long-connection", "a call completed although its handler is still held (after %d calls on the connection, when the late answer to an abandoned call arrived)", n)
+		}
+		f.w.open(0xA1)
+		vs.Quiesce()
+		if len(b.done) > 0 {
+			x.Fail(prop+"/completed-early/long-connection", "a call completed although its handler is still held (after %d calls on the connection)", n)
+		}
+		f.w.open(0xA3)
+		vs.Quiesce()
+		for _, c := range []*ucall{a, b} {
+			select {
+			case <-c.done:
+				c.ret, c.err = true, c.call.Error
+			default:
+			}
+			if !c.ret {
+				x.Fail(prop+"/never-completed/long-connection", "call %#x (outstanding across %d other calls) was never completed", c.tag, n)
+			} else if c.err != nil {
+				x.Fail(prop+"/call-failed/long-connection", "call %#x (outstanding across %d other calls) failed: %v", c.tag, n, c.err)
+			} else if !eqBytes(c.reply, c.want()) {
+				x.Fail(prop+"/wrong-reply/long-connection", "call %#x (outstanding across %d other calls) completed with another call's reply %x", c.tag, n, c.reply)
+			}
+		}
+		if k := f.conn.NumCalls(); k > 1 { // (the abandoned call may still be counted)
+			x.Fail(prop+"/calls-left-registered/long-connection", "NumCalls is %d after every call has completed", k)
+		}
+		x.Outcome("mode=%d n=%d", mode, n)
+		f.conn.Close()
+		vs.Quiesce()
+	}
+}
+
+func init() {
+	ns := []int{16382, 16383, 16400}
+	for _, p := range []string{"C01", "C02", "C19"} {
+		register(&Scenario{Prop: p, Name: "c" + p[1:] + "/long-connection", Quick: []Bound{{0, 0}}, Thorough: []Bound{{0, 0}}, Body: longConn(p, ns, false), MaxSteps: 8000000, BudgetQ: 30, MinHB: 1})
+	}
+	register(&Scenario{Prop: "C03", Name: "c03/long-connection-close", Quick: []Bound{{0, 0}}, Thorough: []Bound{{0, 0}}, Body: longConn("C03", ns, true), MaxSteps: 8000000, BudgetQ: 30, MinHB: 1})
+	register(&Scenario{Prop: "C01", Name: "c01/long-connection-66000", Quick: []Bound{}, Thorough: []Bound{{0, 0}}, Body: longConn("C01", []int{65534, 65535, 66000}, false), MaxSteps: 40000000, BudgetT: 200, MinHB: 1})
 }
